@@ -500,7 +500,7 @@ func genLinOp(t *rapid.T) model.Op {
 	ids := []string{"f", "m", "s", "s2"}
 	switch rapid.SampledFrom([]int{0, 0, 1, 1, 1, 2, 3, 4, 5, 6, 7}).Draw(t, "k") {
 	case 0:
-		return model.Op{K: "regnode", N: rapid.SampledFrom(ids).Draw(t, "n"), Pol: rapid.SampledFrom([]int{0, 0, 1, 2, 3}).Draw(t, "pol"), Shape: rapid.SampledFrom([]int{0, 0, 0, 3}).Draw(t, "shape")}
+		return model.Op{K: "regnode", N: rapid.SampledFrom(ids).Draw(t, "n"), Pol: rapid.SampledFrom([]int{0, 0, 1, 2, 3}).Draw(t, "pol"), Shape: rapid.SampledFrom([]int{0, 3}).Draw(t, "shape")}
 	case 1:
 		l := rapid.SampledFrom([][]string{{"m", "s"}, {"f", "m", "s"}, {"m", "s2"}, {"f", "s"}, {"f", "f", "m", "s2"}}).Draw(t, "ids")
 		return model.Op{K: "regpipe", ET: rapid.SampledFrom([]string{"A", "B"}).Draw(t, "et"), P: rapid.SampledFrom([]string{"p", "q"}).Draw(t, "p"), IDs: l, Pol: rapid.SampledFrom([]int{0, 0, 0, 1, 2}).Draw(t, "ppol")}
